@@ -14,6 +14,7 @@ mod c13;
 mod c05;
 mod c07;
 mod c12;
+mod c15;
 
 fn main() {
     common::install_panic_hook();
@@ -35,6 +36,7 @@ fn main() {
         "reject" => c05::run(&args),
         "foci" => c07::run(&args),
         "masks" | "masks-child" => c12::run(&args),
+        "holo" => c15::run(&args),
         s => {
             eprintln!("unknown stream {s}");
             std::process::exit(2);
